@@ -574,9 +574,12 @@ void harness_step(void)
 #endif
 	VERIF_ASSERT(unknown_ops == 0, "step: no buffer outside the scenario is touched");
 	VERIF_WITNESS("step end reachable");
-#if !((MODE == 1 || MODE == 3) && AK >= H)
+#if MODE == 0 || MODE == 2 || (AK > 0 && AK < H)
 	if(rolled && c >= 1)
 		VERIF_WITNESS("step with rollback and coast-forward reachable");
+#elif AK == 0
+	if(rolled)
+		VERIF_WITNESS("step with rollback to the start of the history reachable");
 #endif
 #if MODE == 2
 	if(match_e == 0 && n_early == 2)
